@@ -2,6 +2,7 @@
   Lemmas for C15 (engine `text`): sinks, sources, separators and sequences.
 -/
 import CelloProofs.Lemmas.Text
+import CelloProofs.Lemmas.TextFloat
 
 namespace Cello.Text
 
@@ -192,9 +193,9 @@ theorem run_text {β : Type} (i : Input) (pos : Nat) (d : β) (rd : List Nat →
     (`Item.safe`), `scan_from_with` stores the item's value, moves the stream by exactly the item's text and returns
     `pos` + its length -/
 theorem scanItem_text (c : Cfg) (T : Tables c) (hc : c.look.continues = true) (k : Kind) (it : Item) (f : List Nat)
-    (i : Input) (pos : Nat) (hk : i.kind = k) (hv : it.valid = true) (hs : it.safe k f = true) (hnf : it.isFloat = false)
+    (i : Input) (pos : Nat) (hk : i.kind = k) (hv : it.valid = true) (hs : it.safe k f = true)
     (hsee : i.view pos = some (it.text c ++ f)) :
-    scanItem c i pos it.shape = (it.val?, .ok (i.adv (it.text c).length, pos + (it.text c).length)) := by
+    scanItem c i pos it.shape = (it.readBack, .ok (i.adv (it.text c).length, pos + (it.text c).length)) := by
   cases it with
   | shw v =>
     cases v with
@@ -202,28 +203,36 @@ theorem scanItem_text (c : Cfg) (T : Tables c) (hc : c.look.continues = true) (k
       simp only [Item.valid, List.all_eq_true, bne_iff_ne, ne_eq] at hv
       simp only [Item.text] at hsee ⊢
       have hl := lookString_show c T hc s (fun b hb => hv b hb) f pos
-      simp only [Item.shape, scanItem, Item.val?]
+      simp only [Item.shape, scanItem, Item.readBack]
       rw [run_text i pos [63] (lookString c.look) _ f s hsee hl]
     | int n =>
       simp only [Item.text] at hsee ⊢
       have h1 := scanLong_printInt true n hv f hs
-      simp only [Item.shape, scanItem, Item.val?]
+      simp only [Item.shape, scanItem, Item.readBack]
       rw [run_text i pos 77 _ _ f n hsee (withN_ok _ _ _ _ _ _ h1)]
-    | flt b => simp [Item.isFloat] at hnf
+    | flt b =>
+      simp only [Item.text] at hsee ⊢
+      have h1 := scanDouble_printF b f hs
+      simp only [Item.shape, scanItem, Item.readBack]
+      rw [run_text i pos _ _ _ f (reparse b) hsee (withN_ok _ _ _ _ _ _ h1)]
   | li n =>
     simp only [Item.text] at hsee ⊢
     have h1 := scanLong_printInt true n hv f hs
-    simp only [Item.shape, scanItem, Item.val?]
+    simp only [Item.shape, scanItem, Item.readBack]
     rw [run_text i pos 77 _ _ f n hsee (withN_ok _ _ _ _ _ _ h1)]
   | ld n =>
     simp only [Item.text] at hsee ⊢
     have h1 := scanLong_printInt false n hv f hs
-    simp only [Item.shape, scanItem, Item.val?]
+    simp only [Item.shape, scanItem, Item.readBack]
     rw [run_text i pos 77 _ _ f n hsee (withN_ok _ _ _ _ _ _ h1)]
-  | lf b => simp [Item.isFloat] at hnf
+  | lf b =>
+    simp only [Item.text] at hsee ⊢
+    have h1 := scanDouble_printF b f hs
+    simp only [Item.shape, scanItem, Item.readBack]
+    rw [run_text i pos _ _ _ f (reparse b) hsee (withN_ok _ _ _ _ _ _ h1)]
   | lit t =>
     simp only [Item.text] at hsee ⊢
-    simp only [Item.shape, scanItem, Item.val?, hsee]
+    simp only [Item.shape, scanItem, Item.readBack, hsee]
     cases hkk : i.kind with
     | str => rw [adv_str i hkk _ t.length]
     | file =>
@@ -240,22 +249,35 @@ theorem scanItem_text (c : Cfg) (T : Tables c) (hc : c.look.continues = true) (k
 /-! ## sequences -/
 
 theorem scanItems_text (c : Cfg) (T : Tables c) (hc : c.look.continues = true) (k : Kind) (its : List Item) (z : List Nat) :
-    ∀ (i : Input) (pos : Nat), i.kind = k → contractOK c k its z = true → (∀ it ∈ its, it.isFloat = false) →
+    ∀ (i : Input) (pos : Nat), i.kind = k → contractOK c k its z = true →
       i.view pos = some (its.flatMap (Item.text c) ++ z) →
       scanItems c i pos (its.map Item.shape)
-        = (its.filterMap Item.val?, .ok (i.adv (its.flatMap (Item.text c)).length, pos + (its.flatMap (Item.text c)).length)) := by
+        = (its.filterMap Item.readBack, .ok (i.adv (its.flatMap (Item.text c)).length, pos + (its.flatMap (Item.text c)).length)) := by
   induction its with
-  | nil => intro i pos _ _ _ _; simp [scanItems, adv_zero]
+  | nil => intro i pos _ _ _; simp [scanItems, adv_zero]
   | cons it its ih =>
-    intro i pos hk hcon hnf hsee
+    intro i pos hk hcon hsee
     simp only [contractOK, Bool.and_eq_true] at hcon
     obtain ⟨⟨hv, hs⟩, hrest⟩ := hcon
     simp only [List.flatMap_cons, List.append_assoc] at hsee
-    have h1 := scanItem_text c T hc k it _ i pos hk hv hs (hnf it List.mem_cons_self) hsee
+    have h1 := scanItem_text c T hc k it _ i pos hk hv hs hsee
     have hsee' := view_adv i pos _ _ hsee
-    have h2 := ih (i.adv (it.text c).length) (pos + (it.text c).length) (by rw [adv_kind]; exact hk) hrest
-      (fun x hx => hnf x (List.mem_cons_of_mem _ hx)) hsee'
+    have h2 := ih (i.adv (it.text c).length) (pos + (it.text c).length) (by rw [adv_kind]; exact hk) hrest hsee'
     simp only [List.map_cons, scanItems, h1, h2, List.filterMap_cons, List.flatMap_cons, List.length_append, adv_adv, Nat.add_assoc]
-    cases it.val? <;> simp
+    cases it.readBack <;> simp
+
+/-- for Strings and Ints the expected value is the value written -/
+theorem readBack_eq_val (it : Item) (h : it.isFloat = false) : it.readBack = it.val? := by
+  cases it with
+  | shw v => cases v <;> simp_all [Item.readBack, Item.val?, Item.isFloat]
+  | _ => simp_all [Item.readBack, Item.val?, Item.isFloat]
+
+theorem filterMap_readBack_eq_val (its : List Item) (h : ∀ it ∈ its, it.isFloat = false) :
+    its.filterMap Item.readBack = its.filterMap Item.val? := by
+  induction its with
+  | nil => rfl
+  | cons it its ih =>
+    simp only [List.filterMap_cons, readBack_eq_val it (h it List.mem_cons_self)]
+    rw [ih (fun x hx => h x (List.mem_cons_of_mem _ hx))]
 
 end Cello.Text
